@@ -36,6 +36,14 @@ def size(p):
     if k == 'locked': return 1 + size(p[2])
     return 1 + size(p[1])
 
+def has_req(p):
+    k = p[0]
+    if k == 'req': return True
+    if k in ('seq',): return has_req(p[1]) or has_req(p[2])
+    if k == 'try': return has_req(p[1])
+    if k in ('ret', 'raise'): return False
+    return has_req(p[2])
+
 def has_locked(p):
     k = p[0]
     if k == 'locked': return True
@@ -188,6 +196,8 @@ def refusing(errs, pats):
     """C06 reading of 'answered with an error' under RaiseMode.ERRORS"""
     return bool(errs) and any(s == 'error' for s, _ in errs) and not o_exempt(pats, errs[0][1])
 
+INFO = ['', '<error-info><session-id>0</session-id></error-info>', '<error-info><session-id>12</session-id></error-info>',
+        '<error-info><session-id> 0 </session-id></error-info>', '<error-info><session-id>00</session-id><bad-element>x</bad-element></error-info>']
 _ENV = {}
 def _env(mode, pats):
     """One Manager over one fake session per (mode, patterns); the scripted server reads its per-run state from `st`."""
@@ -203,8 +213,10 @@ def _env(mode, pats):
         errs = answer_errors(script[i], i) if i < len(script) else []
         st['L'].append(('req', op, tgt, refusing(errs, pats)))
         if errs:
-            body = ''.join('<rpc-error><error-type>protocol</error-type><error-tag>lock-denied</error-tag>%s<error-message>%s</error-message></rpc-error>'
-                           % ('' if s is None else '<error-severity>%s</error-severity>' % s, m) for s, m in errs)
+            # RFC 6241 7.5: a lock-denied error names the holder's session, 0 for a holder that is no NETCONF session
+            info = INFO[(i + len(script)) % len(INFO)]
+            body = ''.join('<rpc-error><error-type>protocol</error-type><error-tag>lock-denied</error-tag>%s<error-message>%s</error-message>%s</rpc-error>'
+                           % ('' if s is None else '<error-severity>%s</error-severity>' % s, m, info) for s, m in errs)
         else:
             body = '<data/>' if op == 'get-config' else '<ok/>'
         return ['<rpc-reply xmlns="%s" message-id="%s">%s</rpc-reply>' % (BASE, mid, body)]
@@ -220,6 +232,9 @@ def impl_run(case):
     m, st = _env(mode, pats)
     L = []
     st['L'] = L; st['n'] = 0; st['script'] = script
+    # an application that switched the manager to asynchronous mode earlier (to pipeline requests) and then enters a
+    # with-block: lock and unlock are synchronous whatever the manager's mode (only for programs that make no request of their own)
+    m.async_mode = bool(case.get('async')) and not has_req(p)
     try:
         compiled(p)(m, L, BodyErr)
         res = ['normal']; exc = None
@@ -229,6 +244,8 @@ def impl_run(case):
         res = ['rpc', 1 if e.errlist is None else 2, e.severity or '', e.message or '', 1 if e.errlist is None else len(e.errlist)]; exc = e
     except BaseException as e:
         res = ['other', type(e).__name__, str(e)[:200]]; exc = e
+    finally:
+        m.async_mode = False
     wire = [[op, tgt] for tag, op, tgt, *_ in [x for x in L if x[0] == 'req']]
     return dict(wire=wire, result=res, log=L, exc=exc, n_requests=st['n'])
 
@@ -317,10 +334,12 @@ def explore(ctx, p, mode, pats, faults, max_faults, label, recs):
     (each taken from `faults`), every other request answered ok.  Lazy DFS: a run whose script is exhausted is the run of
     the script padded with ok; later positions are then varied.  Each script is run exactly once."""
     def rec(script, nf):
-        im = impl_run(dict(prog=p, answers=script, mode=mode, pats=pats))
+        c0 = dict(prog=p, answers=script, mode=mode, pats=pats)
+        if not has_req(p) and (len(script) + size(p)) % 2: c0['async'] = True
+        im = impl_run(c0)
         n = im['n_requests']
         full = script + ['ok'] * (n - len(script))
-        recs.append(record(ctx, dict(prog=p, answers=full, mode=mode, pats=pats), im, label))
+        recs.append(record(ctx, dict(c0, answers=full), im, label))
         if nf >= max_faults: return
         for j in range(len(script), n):
             for a in faults:
@@ -370,6 +389,7 @@ def run(ctx):
         k = rng.randrange(0, 12)
         script = [rng.choice(['ok', 'ok', 'ok', 'err', 'warn', 'we', 'ex', 'ew', 'abs']) for _ in range(k)]
         cases.append(dict(prog=p, answers=script, mode=rng.choice([0, 1, 2]), pats=rng.choice([[], [], ['exempt*'], ['*me*', 'zz']])))
+        if rng.random() < 0.5 and not has_req(p): cases[-1]['async'] = True
     evaluate(ctx, cases, 'random')
 
 def search(ctx, seeds):
